@@ -14,6 +14,21 @@ type FileSpec struct {
 	Tags []int `json:"tags"` // one full 256 KiB block per tag (same tag = identical block)
 	Tail int   `json:"tail"` // extra bytes after the blocks (0..ChunkSize-1)
 	Salt int   `json:"salt"` // varies the tail content
+	// Dir > 0: the reference is a directory (tar upload) with two entries: "d/a.bin" holding this
+	// content and "b.bin" holding SecondBytes(), which repeats the first block (sharing inside one reference)
+	Dir int `json:"dir,omitempty"`
+}
+
+// SecondBytes is the content of the second entry of a directory reference.
+func (f FileSpec) SecondBytes() []byte {
+	var out []byte
+	if len(f.Tags) > 0 {
+		out = append(out, Block(f.Tags[0])...)
+	}
+	for i := 0; i < 11; i++ {
+		out = append(out, byte(i*5+f.Salt*3+77))
+	}
+	return out
 }
 
 var blockCache = map[int][]byte{}
